@@ -73,7 +73,7 @@ Definition validate_op (o : op) : bool :=
 
 (* ---- labels (Go maps: one value per key; kept sorted by key) ---- *)
 
-Definition labels := list (N * N).
+Notation labels := (list (N * N)) (only parsing).
 
 Fixpoint set_label (k v : N) (l : labels) : labels :=
   match l with
@@ -108,22 +108,20 @@ Definition sort_names (l : list N) : list N := fold_right insert_name [] l.
 
 Definition vals_eqb : list N -> list N -> bool := list_eqb N.eqb.
 
-Fixpoint row_get {P} (vals : list N) (rows : list (list N * P)) : option P :=
-  match rows with
-  | [] => None
-  | (k, p) :: r => if vals_eqb vals k then Some p else row_get vals r
-  end.
-(* map assignment m[k] = p: whatever was stored under k is gone, (k, p) is there *)
-Definition row_set {P} (vals : list N) (p : P) (rows : list (list N * P)) : list (list N * P) :=
-  (vals, p) :: filter (fun row => negb (vals_eqb vals (fst row))) rows.
-
-Fixpoint name_get {V} (k : N) (l : list (N * V)) : option V :=
+(* Go maps as association lists: lookup, and assignment m[k] = v (whatever was stored
+   under k is gone, (k, v) is there; iteration order is immaterial) *)
+Fixpoint aget {K V} (eqb : K -> K -> bool) (k : K) (l : list (K * V)) : option V :=
   match l with
   | [] => None
-  | (k', v) :: r => if N.eqb k k' then Some v else name_get k r
+  | (k', v) :: r => if eqb k k' then Some v else aget eqb k r
   end.
-Definition name_set {V} (k : N) (v : V) (l : list (N * V)) : list (N * V) :=
-  (k, v) :: filter (fun kv => negb (N.eqb k (fst kv))) l.
+Definition aset {K V} (eqb : K -> K -> bool) (k : K) (v : V) (l : list (K * V)) : list (K * V) :=
+  (k, v) :: filter (fun kv => negb (eqb k (fst kv))) l.
+
+Definition row_get {P} : list N -> list (list N * P) -> option P := aget vals_eqb.
+Definition row_set {P} : list N -> P -> list (list N * P) -> list (list N * P) := aset vals_eqb.
+Definition name_get {V} : N -> list (N * V) -> option V := aget N.eqb.
+Definition name_set {V} : N -> V -> list (N * V) -> list (N * V) := aset N.eqb.
 
 (* ---- grouped collectors ---- *)
 
@@ -132,7 +130,7 @@ Definition kind_eqb (a b : kind) : bool :=
   match a, b with KCounter, KCounter | KGauge, KGauge | KHistogram, KHistogram => true | _, _ => false end.
 
 (* GroupedCounterMetric / GroupedGaugeMetric: value and group; LabelValues is the row key *)
-Definition gmetric := (Z * N)%type.
+Notation gmetric := (Z * N)%type (only parsing).
 
 Record collector := mkColl {
   c_kind : kind;
@@ -154,7 +152,7 @@ Definition update_labels (c : collector) (names : list N) : collector :=
       mkColl (c_kind c) new_names (map rekey (c_rows c))
   end.
 
-Definition vault := list (N * collector).
+Notation vault := (list (N * collector)) (only parsing).
 
 (* GetOrCreate{Counter,Gauge}Collector: None = the error branch (collector of the other type) *)
 Definition get_or_create (v : vault) (k : kind) (name : N) (names : list N) : vault * option collector :=
@@ -166,12 +164,8 @@ Definition get_or_create (v : vault) (k : kind) (name : N) (names : list N) : va
       if kind_eqb (c_kind c') k then (v', Some c') else (v', None)
   end.
 
-(* uint64(value) on the scaled representation (non-negative values) *)
-Definition trunc_uint64 (x : Z) : Z := (Z.quot x 8 * 8)%Z.
-
-(* ConstCounterCollector.Add: Value is a uint64, `uint64(value)` *)
-Definition counter_add (v : vault) (group name : N) (value0 : Z) (l : labels) : vault :=
-  let value := trunc_uint64 value0 in
+(* ConstCounterCollector.Add (Value is a float64 since the repair of F5b) *)
+Definition counter_add (v : vault) (group name : N) (value : Z) (l : labels) : vault :=
   match get_or_create v KCounter name (label_names l) with
   | (v', None) => v'
   | (v', Some c) =>
@@ -205,7 +199,7 @@ Definition expire_group (v : vault) (group : N) : vault :=
 
 (* a series value as Gather shows it: number (histograms: sum) and, for histograms,
    count :: cumulative bucket counts *)
-Definition sval := (Z * list N)%type.
+Notation sval := (Z * list N)%type (only parsing).
 
 Record vec := mkVec {
   v_names : list N;                  (* label names fixed at registration *)
@@ -252,21 +246,27 @@ Definition init_state : state := mkState [] [] [] [].
 
 Definition hook_label : N := 10.          (* the label name "hook" in the numbering of label names *)
 
-(* applyGroupOperations *)
+(* applyGroupOperations, one operation (each branch ends in `continue` since the repair of F5c) *)
 Definition apply_group_op (hook group : N) (v : vault) (o : op) : vault :=
   if action_eqb (o_action o) AExpire then expire_group v group
   else
     let l := merge_labels (o_labels o) [(hook_label, hook)] in
-    let v1 := match o_action o, o_value o with
-              | AAdd, Some x => counter_add v group (o_name o) x l
-              | _, _ => v
-              end in
-    let v2 := match o_add o with Some x => counter_add v1 group (o_name o) x l | None => v1 end in   (* no `continue` above *)
-    let v3 := match o_action o, o_value o with
-              | ASet, Some x => gauge_set v2 group (o_name o) x l
-              | _, _ => v2
-              end in
-    match o_set o with Some x => gauge_set v3 group (o_name o) x l | None => v3 end.
+    match o_action o, o_value o with
+    | AAdd, Some x => counter_add v group (o_name o) x l
+    | _, _ =>
+        match o_add o with
+        | Some x => counter_add v group (o_name o) x l
+        | None =>
+            match o_action o, o_value o with
+            | ASet, Some x => gauge_set v group (o_name o) x l
+            | _, _ =>
+                match o_set o with
+                | Some x => gauge_set v group (o_name o) x l
+                | None => v
+                end
+            end
+        end
+    end.
 
 Definition apply_group_operations (hook : N) (v : vault) (group : N) (ops : list op) : vault :=
   fold_left (apply_group_op hook group) ops (expire_group v group).
@@ -324,7 +324,7 @@ Definition hook_batch (st : state) (hook : N) (written : list op) : state * bool
 
 (* a collected series: kind (1 counter, 2 gauge, 3 histogram), name, labels with a
    non-empty value (sorted by label name), value *)
-Definition series := (N * N * labels * sval)%type.
+Notation series := (N * N * list (N * N) * (Z * list N))%type (only parsing).
 
 Definition shown_labels (names vals : list N) : labels :=
   filter (fun kv => negb (N.eqb (snd kv) 0)) (combine names vals).
